@@ -201,7 +201,12 @@ def r_onsegment(idx, rep, modules, rule="R-ONSEGMENT", floor=4):
         for f in m.functions.values():
             segs = _segments(f)
             if segs:
-                _Range(f, segs, rep, rule).run()
+                # one-expression helpers (`_clamp_to_unit_interval(x)` = min(max(x, 0.0), 1.0)) are read as the expression they return
+                import copy as _copy
+                from ..core.inline import expand_helpers as _expand
+                g = _copy.copy(f)
+                g.node = _expand(idx, f.module, f.node, depth=2, only=lambda c: c.name.startswith("_"))
+                _Range(g, segs, rep, rule).run()
 
 
 def r_clipsym(idx, rep, modules, rule="R-CLIPSYM", floor=4):
